@@ -544,7 +544,7 @@ func (g *genState) focusBlock(lj []int, k int) bool {
 	}
 	g.nextBlk++
 	ei := r.Intn(2)
-	typ := Ref{K: "reg", I: r.Intn(3)}
+	typ := Ref{K: "reg", I: r.Intn(2)}
 	name := []string{"open", "spin"}[r.Intn(2)]
 	prevOp := ""
 	for i, bc := range cs {
